@@ -185,6 +185,8 @@ func runC10(c *Ctx, r *Report) {
 	r.Doc("R-C10.4", "Fetcher.Fetch reaches processQueue on every path (the supplied starting entries are fetched for every limit, including 0)")
 	r.Doc("R-C10.5", "fromEntry trims to at least the number of supplied entries")
 	r.Doc("R-C10.6", "the fetch admission state (clock window, task cache) is only touched under the process mutex — the kept set does not depend on worker interleaving through torn updates")
+	r.Doc("R-C10.7", "the caller's length limit and exclusions reach the fetcher through every loader and constructor")
+	optionForwarding(c, r, "R-C10.7", append(loaderFetchSpecs(), constructorLoaderSpecs()...), "Length", "Exclude", "ShouldExclude")
 	fetch := p.FuncI("entry", "Fetcher", "Fetch")
 	ff := &Flow{P: p, Fn: fetch, Entry: Facts{}}
 	ff.Node = func(n ast.Node, f Facts) {
